@@ -493,6 +493,9 @@ def render_staging(prog):
             form = f"(hyv_hit.val {i} (do-mac (import hyv_hit) (hyv_hit.hit {s1}){n} '(do (hyv_hit.hit {s2}) (+ 50 {i}))))"
         if where == "top":
             out.append(form)
+        elif where == "let":
+            out.append(f"(setv hyv-x{i} 0)")
+            out.append(f"(let [hyv-x{i} 7] {form} (hyv_hit.val {100 + i} hyv-x{i}))")
         else:
             out.append(f"(defn f{i} [] {form} None)")
             out += [f"(f{i})"] * runs
@@ -578,6 +581,13 @@ def main_c16(run):
                         ok = False
                         run.violation(f"value:{key}", f"{hist}: form {i} ({kind}) produced values {vals}, expected {wantv}",
                                       {"prog": rec, "text": text})
+            for i, want_read in enumerate(rec["letread"], 1):
+                if want_read and hist != "compile":
+                    vals = [l for l in o["lines"] if l.startswith(f"v{100 + i}=")]
+                    if vals != [f"v{100 + i}={want_read}"]:
+                        ok = False
+                        run.violation(f"let:{key}", f"{hist}: after form {i} ({rec['prog'][i - 1][0]}) inside (let [x 7] ...) the name reads "
+                                      f"{vals}, expected {want_read}; module:\n{text}", {"prog": rec, "text": text})
             if hist == "source" and not o["compiled"]:
                 run.notes.append(f"'from source' run of {key} did not report compiling")
             if hist == "bytecode" and o["compiled"]:
@@ -589,7 +599,8 @@ def main_c16(run):
     run.sample({"module": render_staging(results[0][0]["prog"]), "expected": {k: results[0][0][k] for k in ("compile", "source", "bytecode")}})
     return run.finish("model_checking",
                       "every module of <= %d staging forms (eval-when-compile, eval-and-compile, do-mac) each at top level or "
-                      "in a function called 0-2 times, each optionally holding another staging form in its body; HyStaging gives per effect site the number of firings for three "
+                      "in a function called 0-2 times or in a let (whose binding the following code must still see), each optionally "
+                      "holding another staging form in its body; HyStaging gives per effect site the number of firings for three "
                       "histories (compile only, import from source, import again from cached bytecode); each history is a "
                       "separate interpreter process, firings counted from a log file, returned values checked" % mf,
                       extra={"exhaustive": len(progs) == len(r.ex("PROG"))})
